@@ -1,7 +1,714 @@
-//! C19 — not implemented yet.
-use vcore::Ctx;
+//! C19 — synthesized netlists behave like the RTL (translation validation per
+//! generated case).
+//!
+//! Case (see `synth_case`): Veryl text (vdesign design in the synthesizable
+//! dialect, or a memory-shaped module) × stimulus × declared clock / reset
+//! type × cell library × `RamConfig` drawn around the arrays.
+//!
+//! Oracle: `synthesize_with` (the call of `veryl synth`) → `GateModule`,
+//! simulated by `gate_eval::GateSim` (written from the doc comments of
+//! `ir.rs`) with the same step model as the RTL driver (drive inputs, one
+//! active clock edge with the reset asserted around it on reset steps, sample
+//! outputs); every *known* bit of every output must equal what veryl's RTL
+//! simulator (`vdesign::Analyzed::run`, default `Config`) reports after the
+//! same step.  Bits the netlist leaves open (RAM words never written, state
+//! before the first reset) are X in the gate simulation and are not compared.
+//! State elements must be clocked by the clock port on the declared edge and
+//! reset by the reset port with the declared polarity / synchronicity.
+//!
+//! Before a disagreement is reported it is re-examined: a `design` case is
+//! evaluated by vdesign's IEEE 1800 reference (where the reference says
+//! "unknown" the case is outside the property; where it sides with the gate
+//! netlist against the RTL simulator the case is a simulator matter, counted,
+//! not a C19 failure); a `ram` case is re-synthesized with inference disabled
+//! to tell RAM inference from the rest.  Failing `design` cases are minimised
+//! structurally; the signature names the constructs that remain.
 
-pub fn run(_ctx: &Ctx) {
-    println!("INCONCLUSIVE property=C19: check not implemented");
-    std::process::exit(2);
+use crate::gate_eval::{ClockSpec, GateSim};
+use crate::synth_case::*;
+use num_bigint::BigUint;
+use std::collections::{BTreeMap, BTreeSet};
+use vcore::{CaseCfg, Ctx, Draw, Outcome, Value, hash_str, json};
+use vdesign::*;
+use veryl_simulator::Config;
+use veryl_synthesizer::ir::{GateModule, PortDir};
+use veryl_synthesizer::{Library, RamConfig};
+
+/// First disagreement between the gate netlist and the RTL trace.
+#[derive(Clone, Debug)]
+pub struct Mismatch {
+    pub step: usize,
+    pub output: usize,
+    pub gate: BigUint,
+    pub gate_x: BigUint,
+    pub rtl: BigUint,
+}
+
+#[derive(Default, Clone, Debug)]
+pub struct CmpStats {
+    pub compared_bits: u64,
+    pub x_bits: u64,
+    pub ram_reads_known: u64,
+    pub ram_reads_x: u64,
+    pub ram_writes: u64,
+    pub ram_masked_writes: u64,
+    /// some output changed its value during the run
+    pub activity: bool,
+}
+
+pub enum GateRun {
+    /// structural problem of the netlist (signature)
+    Broken(String),
+    Done(Option<Mismatch>, CmpStats),
+}
+
+/// Simulate `m` over `stim` and compare with the RTL trace.
+pub fn gate_vs_rtl(m: &GateModule, case: &SynthCase, stim: &Stimulus, rtl: &Trace) -> GateRun {
+    let cs = ClockSpec {
+        clock: stim.clock.clone(),
+        reset: stim.reset.clone(),
+        reset_active_high: case.reset.active_high(),
+    };
+    // a design whose clock is unused may lose nothing: ports are always kept
+    let mut sim = match GateSim::new(m, &cs) {
+        Ok(s) => s,
+        Err(e) => return GateRun::Broken(format!("netlist-not-evaluable:{e}")),
+    };
+    let errs = sim.clocking_errors(case.clock == ClockKind::Negedge, Some(case.reset.sync()));
+    if let Some(e) = errs.first() {
+        return GateRun::Broken(format!("clocking:{e}"));
+    }
+    for p in &stim.inputs {
+        if !sim.has_port(&p.name, PortDir::Input) {
+            return GateRun::Broken("port-missing:input".into());
+        }
+    }
+    let mut st = CmpStats::default();
+    let mut first: Option<Mismatch> = None;
+    let mut prev: Vec<BigUint> = vec![];
+    for (si, step) in stim.steps.iter().enumerate() {
+        for (p, v) in stim.inputs.iter().zip(&step.values) {
+            if let Err(e) = sim.set_input(&p.name, v) {
+                return GateRun::Broken(e);
+            }
+        }
+        if stim.clock.is_some() {
+            sim.step(step.reset && stim.reset.is_some());
+        } else {
+            sim.settle();
+        }
+        let Some(row) = rtl.steps.get(si) else { break };
+        for (oi, p) in stim.outputs.iter().enumerate() {
+            let (v, x, w) = match sim.get_output(&p.name) {
+                Ok(r) => r,
+                Err(e) => return GateRun::Broken(e),
+            };
+            if w != p.width {
+                return GateRun::Broken("port-width:output".into());
+            }
+            let r = &row[oi].value;
+            st.x_bits += x.count_ones();
+            st.compared_bits += w as u64 - x.count_ones();
+            // known bits must agree
+            let diff = (&v ^ r) & (mask(w as u32) ^ &x);
+            if diff != BigUint::default() && first.is_none() {
+                first = Some(Mismatch {
+                    step: si,
+                    output: oi,
+                    gate: v.clone(),
+                    gate_x: x.clone(),
+                    rtl: r.clone(),
+                });
+            }
+            if si > 0 && prev.get(oi) != Some(r) {
+                st.activity = true;
+            }
+            if si == 0 {
+                prev.push(r.clone());
+            } else {
+                prev[oi] = r.clone();
+            }
+        }
+        if first.is_some() {
+            break;
+        }
+    }
+    st.ram_reads_known = sim.ram_reads_known;
+    st.ram_reads_x = sim.ram_reads_x;
+    st.ram_writes = sim.ram_writes;
+    st.ram_masked_writes = sim.ram_masked_writes;
+    GateRun::Done(first, st)
+}
+
+fn mask(w: u32) -> BigUint {
+    (BigUint::from(1u32) << w) - 1u32
+}
+
+pub fn run_rtl(a: &Analyzed, stim: &Stimulus) -> Result<Trace, String> {
+    match std::panic::catch_unwind(std::panic::AssertUnwindSafe(|| a.run("Top", &Config::default(), stim))) {
+        Ok(r) => r,
+        Err(_) => Err("panic".into()),
+    }
+}
+
+/// What happened to a (text, stimulus, options) triple.
+pub enum Verdict {
+    Skip(String),
+    Broken(String, GateModule),
+    Agree(Box<veryl_synthesizer::SynthResult>, CmpStats),
+    Differ(Box<veryl_synthesizer::SynthResult>, Mismatch),
+}
+
+pub fn verdict(text: &str, case: &SynthCase, stim: &Stimulus, library: Library, ram: RamConfig) -> Verdict {
+    let a = match Analyzed::new(text) {
+        Ok(a) => a,
+        Err(r) => {
+            let code = r.errors.first().map(|e| e.0.clone()).unwrap_or_default();
+            return Verdict::Skip(format!("generated text rejected by the analyzer ({}:{code})", r.stage));
+        }
+    };
+    let sr = match synthesize(&a, library, ram) {
+        Synth::Ok(r) => r,
+        Synth::Rejected(why) => return Verdict::Skip(format!("synthesizer rejects the design ({why})")),
+        Synth::Panic(msg) => return Verdict::Skip(format!("synthesizer panics ({msg})")),
+    };
+    let rtl = match run_rtl(&a, stim) {
+        Ok(t) => t,
+        Err(e) => {
+            let e: String = e.chars().filter(|c| !c.is_ascii_digit()).take(50).collect();
+            return Verdict::Skip(format!("RTL simulator cannot run the design ({e})"));
+        }
+    };
+    match gate_vs_rtl(&sr.gate_ir.module, case, stim, &rtl) {
+        GateRun::Broken(sig) => Verdict::Broken(sig, sr.gate_ir.module.clone()),
+        GateRun::Done(None, st) => Verdict::Agree(sr, st),
+        GateRun::Done(Some(mm), _) => Verdict::Differ(sr, mm),
+    }
+}
+
+/// Constructs that remain in a (minimised) design: the root-cause signature.
+pub fn design_features(design: &Design) -> BTreeSet<String> {
+    let mut out = BTreeSet::new();
+    fn ex(m: &Module, e: &Expr, out: &mut BTreeSet<String>) {
+        vdesign::findings::walk(m, e, 1, &mut |mm, n| {
+            let t = ty_of(mm, n.e);
+            let name = match n.e {
+                Expr::Lit(_) | Expr::EnumVal(..) => return,
+                Expr::Ref(r) => {
+                    if mm.decls[r.decl].array.is_some() {
+                        out.insert(if r.idx.as_ref().is_some_and(|i| !matches!(**i, Expr::Lit(_))) { "array[dyn]".into() } else { "array[const]".into() });
+                    }
+                    match r.sel {
+                        Sel::None => return,
+                        Sel::BitC(_) | Sel::Range(..) => "select".to_string(),
+                        _ => "select[dyn]".to_string(),
+                    }
+                }
+                other => vdesign::findings::top_op(other),
+            };
+            let sg = if t.signed && matches!(n.e, Expr::Bin(..) | Expr::Un(..)) { "(signed)" } else { "" };
+            out.insert(format!("{name}{sg}"));
+        });
+    }
+    fn st(m: &Module, ss: &[Stmt], out: &mut BTreeSet<String>) {
+        for s in ss {
+            match s {
+                Stmt::Assign { lhs, op, rhs } => {
+                    if !matches!(lhs.sel, Sel::None) {
+                        out.insert(if matches!(lhs.sel, Sel::BitC(_) | Sel::Range(..)) { "lhs-select".into() } else { "lhs-select[dyn]".into() });
+                    }
+                    if lhs.idx.is_some() {
+                        out.insert("lhs-array".into());
+                    }
+                    if lhs.field.is_some() {
+                        out.insert("lhs-field".into());
+                    }
+                    if let AssignOp::Op(b) = op {
+                        out.insert(format!("{}=", b.name()));
+                    }
+                    ex(m, rhs, out);
+                }
+                Stmt::AssignConcat { rhs, .. } => {
+                    out.insert("lhs-concat".into());
+                    ex(m, rhs, out);
+                }
+                Stmt::If { cond, then, els } => {
+                    out.insert("if-stmt".into());
+                    ex(m, cond, out);
+                    st(m, then, out);
+                    st(m, els, out);
+                }
+                Stmt::Case { sel, arms, default } => {
+                    out.insert("case-stmt".into());
+                    ex(m, sel, out);
+                    for (_, b) in arms {
+                        st(m, b, out);
+                    }
+                    if let Some(d) = default {
+                        st(m, d, out);
+                    }
+                }
+                Stmt::Switch { arms, default } => {
+                    out.insert("switch-stmt".into());
+                    for (cs, b) in arms {
+                        for c in cs {
+                            ex(m, c, out);
+                        }
+                        st(m, b, out);
+                    }
+                    if let Some(d) = default {
+                        st(m, d, out);
+                    }
+                }
+                Stmt::For { body, break_if, .. } => {
+                    out.insert("for".into());
+                    if let Some(b) = break_if {
+                        out.insert("break".into());
+                        ex(m, b, out);
+                    }
+                    st(m, body, out);
+                }
+                Stmt::Display { .. } => {}
+                Stmt::Return(e) => ex(m, e, out),
+            }
+        }
+    }
+    for m in &design.modules {
+        for f in &m.funcs {
+            out.insert("function".into());
+            st(m, &f.body, &mut out);
+        }
+        for it in &m.items {
+            match it {
+                Item::Assign { lhs, rhs } => {
+                    if !matches!(lhs.sel, Sel::None) {
+                        out.insert("lhs-select".into());
+                    }
+                    ex(m, rhs, &mut out);
+                }
+                Item::Let { rhs, .. } => ex(m, rhs, &mut out),
+                Item::AlwaysComb(b) => {
+                    out.insert("always_comb".into());
+                    st(m, b, &mut out);
+                }
+                Item::AlwaysFf { reset, body, .. } => {
+                    out.insert("always_ff".into());
+                    st(m, reset, &mut out);
+                    st(m, body, &mut out);
+                }
+                Item::Inst { conns, .. } => {
+                    out.insert("inst".into());
+                    for (_, c) in conns {
+                        if let Conn::In(e) = c {
+                            ex(m, e, &mut out);
+                        }
+                    }
+                }
+            }
+        }
+    }
+    out
+}
+
+fn fail_payload(text: &str, case: &SynthCase, stim: &Stimulus, extra: Value) -> Value {
+    json!({"veryl": text, "options": case.options_json(), "stimulus": stim_json(stim), "detail": extra})
+}
+
+/// Decide one case.
+pub fn evaluate(case: &SynthCase) -> Outcome {
+    let v = verdict(&case.text, case, &case.stim, case.library, case.ram);
+    match v {
+        Verdict::Skip(r) => Outcome::skip(r),
+        Verdict::Broken(sig, _) => Outcome::fail(sig.clone(), format!("the netlist cannot be simulated: {sig}\n{}", case.text), fail_payload(&case.text, case, &case.stim, json!(null))),
+        Verdict::Agree(sr, st) => {
+            let m = &sr.gate_ir.module;
+            let mut classes = case.classes.clone();
+            classes.push(format!("family:{}", case.family));
+            classes.push(format!("library:{}", library_name(case.library)));
+            classes.push(format!("clock:{}", case.clock.type_name()));
+            classes.push(format!("reset:{}", case.reset.type_name()));
+            netlist_classes(m, &mut classes);
+            if case.family == "ram" {
+                classes.push(if m.ram_blocks.is_empty() { "ram:not_inferred".into() } else { "ram:inferred".to_string() });
+                if st.ram_reads_known > 0 {
+                    classes.push("ram:read_data_compared".into());
+                }
+                if st.ram_masked_writes > 0 {
+                    classes.push("ram:masked_write_executed".into());
+                }
+            }
+            if st.x_bits > 0 {
+                classes.push("compare:some_bits_x".into());
+            }
+            if st.compared_bits == 0 {
+                classes.push("compare:nothing_known".into());
+            }
+            if case.stim.steps.iter().skip(2).any(|s| s.reset) {
+                classes.push("stim:mid_run_reset".into());
+            }
+            let nt = nontrivial(m) && st.compared_bits > 0 && st.activity;
+            let sample = format!("{}// options: {}\n// stimulus: {}", case.text, case.options_json(), stim_json(&case.stim));
+            Outcome::pass(hash_str(&sample), nt, classes, sample)
+        }
+        Verdict::Differ(sr, mm) => explain(case, &sr.gate_ir.module, mm),
+    }
+}
+
+/// A disagreement: re-examine, minimise, name.
+fn explain(case: &SynthCase, gate: &GateModule, mm: Mismatch) -> Outcome {
+    let oname = case.stim.outputs[mm.output].name.clone();
+    let head = format!(
+        "output {oname} after step {}: gate netlist {:x} (X mask {:x}), RTL simulator {:x}  [library {}, {:?}]",
+        mm.step,
+        mm.gate,
+        mm.gate_x,
+        mm.rtl,
+        library_name(case.library),
+        case.ram
+    );
+    if let Some(design) = &case.design {
+        let rt = reference_trace(design, &case.stim);
+        let rv = &rt.steps[mm.step][mm.output];
+        if rv.x {
+            return Outcome::skip("the IEEE 1800 reference gives X where netlist and RTL simulator differ (outside the property)");
+        }
+        let known = mask(case.stim.outputs[mm.output].width as u32) ^ &mm.gate_x;
+        let gate_ok = ((&mm.gate ^ &rv.v) & &known) == BigUint::default();
+        if gate_ok && rv.v != mm.rtl {
+            return Outcome::skip("the RTL simulator deviates from the IEEE 1800 reference, the netlist agrees with it (simulator matter: C02 / C18)");
+        }
+        // minimise: the netlist must keep disagreeing with an RTL simulator that agrees with the reference
+        let mut budget_left = std::env::var("C19_MINIMIZE").ok().and_then(|s| s.parse::<usize>().ok()).unwrap_or(250);
+        if !case.stim.steps.is_empty() && budget_left > 0 {
+            let lib = case.library;
+            let ram = case.ram;
+            let mut pred = |dsg: &Design, st: &Stimulus| -> bool {
+                let text = retype(&print_design(dsg), case.clock, case.reset);
+                match verdict(&text, case, st, lib, ram) {
+                    Verdict::Differ(_, m2) => {
+                        let rt = reference_trace(dsg, st);
+                        match rt.steps.get(m2.step).and_then(|r| r.get(m2.output)) {
+                            Some(rv) => !rv.x && rv.v == m2.rtl,
+                            None => false,
+                        }
+                    }
+                    _ => false,
+                }
+            };
+            if pred(design, &case.stim) {
+                budget_left -= 1;
+                let (md, ms) = vdesign::minimize::minimize(design, &case.stim, &mut pred, budget_left);
+                let text = retype(&print_design(&md), case.clock, case.reset);
+                let feats: Vec<String> = design_features(&md).into_iter().collect();
+                let sig = format!("netlist-differs-from-rtl:{}", feats.join(","));
+                let detail = match verdict(&text, case, &ms, lib, ram) {
+                    Verdict::Differ(sr2, m2) => format!(
+                        "minimised: output {} after step {}: gate {:x} (X {:x}), RTL {:x}\n{}\n-- gate ir --\n{}",
+                        ms.outputs[m2.output].name,
+                        m2.step,
+                        m2.gate,
+                        m2.gate_x,
+                        m2.rtl,
+                        text,
+                        if sr2.gate_ir.module.cells.len() < 150 { format!("{}", sr2.gate_ir) } else { format!("({} cells)", sr2.gate_ir.module.cells.len()) }
+                    ),
+                    _ => text.clone(),
+                };
+                return Outcome::fail(sig, format!("{head}\nthe IEEE 1800 reference agrees with the RTL simulator\n{detail}"), fail_payload(&text, case, &ms, json!({"original": case.text})));
+            }
+        }
+        let feats: Vec<String> = design_features(design).into_iter().collect();
+        return Outcome::fail(
+            format!("netlist-differs-from-rtl(unminimised):{}", feats.join(",")),
+            format!("{head}\nreference value {:x}\n{}", rv.v, case.text),
+            fail_payload(&case.text, case, &case.stim, json!(null)),
+        );
+    }
+    // memory-shaped case: the same text without inference
+    let off = RamConfig {
+        min_bits: usize::MAX,
+        max_ff_bits: usize::MAX,
+        ..case.ram
+    };
+    let styles: Vec<String> = case.classes.iter().filter(|c| c.starts_with("ram:write_") || c.starts_with("ram:read_") || c.starts_with("ram:child") || c.starts_with("ram:own")).map(|c| c[4..].to_string()).collect();
+    let inferred = !gate.ram_blocks.is_empty();
+    let without = match verdict(&case.text, case, &case.stim, case.library, off) {
+        Verdict::Agree(..) => "agrees",
+        Verdict::Differ(..) => "differs",
+        Verdict::Broken(..) => "broken",
+        Verdict::Skip(_) => "skipped",
+    };
+    let sig = if inferred && without == "agrees" {
+        format!("ram-inference-changes-behaviour:{}", styles.join(","))
+    } else {
+        format!("netlist-differs-from-rtl(memory-module,{}):{}", if inferred { "inferred" } else { "flip-flops" }, styles.join(","))
+    };
+    Outcome::fail(
+        sig,
+        format!(
+            "{head}\nRAM blocks in the netlist: {}; the same text synthesized without inference {without} with the RTL simulator\n{}\n-- gate ir --\n{}",
+            gate.ram_blocks.len(),
+            case.text,
+            if gate.cells.len() < 200 { format!("{gate}") } else { format!("({} cells)", gate.cells.len()) }
+        ),
+        fail_payload(&case.text, case, &case.stim, json!({"without_inference": without})),
+    )
+}
+
+// ---------------------------------------------------------------------------
+// recorded reproducers: text + options + stimulus
+// ---------------------------------------------------------------------------
+
+pub fn stim_from(v: &Value) -> Stimulus {
+    let ports = |x: &Value| -> Vec<PortSpec> {
+        x.as_array()
+            .map(|a| {
+                a.iter()
+                    .map(|p| PortSpec {
+                        name: p["name"].as_str().unwrap_or("").to_string(),
+                        width: p["width"].as_u64().unwrap_or(1) as usize,
+                    })
+                    .collect()
+            })
+            .unwrap_or_default()
+    };
+    Stimulus {
+        clock: v["clock"].as_str().map(|s| s.to_string()),
+        reset: v["reset"].as_str().map(|s| s.to_string()),
+        inputs: ports(&v["inputs"]),
+        outputs: ports(&v["outputs"]),
+        steps: v["steps"]
+            .as_array()
+            .map(|a| {
+                a.iter()
+                    .map(|s| StimStep {
+                        reset: s["reset"].as_bool().unwrap_or(false),
+                        values: s["values"].as_array().map(|r| r.iter().map(|x| x.as_str().and_then(|t| BigUint::parse_bytes(t.as_bytes(), 16)).unwrap_or_default()).collect()).unwrap_or_default(),
+                    })
+                    .collect()
+            })
+            .unwrap_or_default(),
+    }
+}
+
+pub fn case_from_payload(p: &Value) -> SynthCase {
+    let o = &p["options"];
+    let clock = match o["clock_type"].as_str().unwrap_or("clock") {
+        "clock_posedge" => ClockKind::Posedge,
+        "clock_negedge" => ClockKind::Negedge,
+        _ => ClockKind::Plain,
+    };
+    let reset = match o["reset_type"].as_str().unwrap_or("reset") {
+        "reset_async_high" => ResetKind::AsyncHigh,
+        "reset_async_low" => ResetKind::AsyncLow,
+        "reset_sync_high" => ResetKind::SyncHigh,
+        "reset_sync_low" => ResetKind::SyncLow,
+        _ => ResetKind::Plain,
+    };
+    let library = match o["library"].as_str().unwrap_or("sky130") {
+        "asap7" => Library::Asap7,
+        "gf180mcu" => Library::Gf180mcu,
+        "ihp-sg13g2" => Library::IhpSg13g2,
+        _ => Library::Sky130,
+    };
+    let dflt = RamConfig::default();
+    let g = |k: &str, d: usize| o[k].as_u64().map(|x| x as usize).unwrap_or(d);
+    SynthCase {
+        family: "recorded",
+        text: p["veryl"].as_str().unwrap_or("").to_string(),
+        design: None,
+        stim: stim_from(&p["stimulus"]),
+        clock,
+        reset,
+        library,
+        ram: RamConfig {
+            min_bits: g("ram_min_bits", dflt.min_bits),
+            max_read_ports: g("ram_max_read_ports", dflt.max_read_ports),
+            max_write_ports: g("ram_max_write_ports", dflt.max_write_ports),
+            max_ff_bits: g("ram_max_ff_bits", dflt.max_ff_bits),
+        },
+        classes: vec!["recorded".into()],
+        arrays: vec![],
+    }
+}
+
+/// Re-run a recorded reproducer; the signature is the recorded root cause.
+pub fn replay_recorded(p: &Value) -> Outcome {
+    let case = case_from_payload(p);
+    let root = p["root"].as_str().unwrap_or("recorded").to_string();
+    match verdict(&case.text, &case, &case.stim, case.library, case.ram) {
+        Verdict::Skip(r) => Outcome::skip(r),
+        Verdict::Agree(..) => Outcome::pass(hash_str(&case.text), true, vec!["recorded".into()], case.text.clone()),
+        Verdict::Broken(sig, _) => Outcome::fail(sig, "recorded reproducer: netlist not evaluable", p.clone()),
+        Verdict::Differ(_, mm) => Outcome::fail(
+            root,
+            format!(
+                "recorded reproducer: output {} after step {}: gate {:x} (X {:x}), RTL {:x}\n{}",
+                case.stim.outputs[mm.output].name, mm.step, mm.gate, mm.gate_x, mm.rtl, case.text
+            ),
+            p.clone(),
+        ),
+    }
+}
+
+/// Development aid (`<ID>_DISCOVER=1`): keep searching past failures and
+/// print each new signature once; `<ID>_RECORD=dir` writes the smallest
+/// reproducer per signature.
+pub fn discover(id: &str, o: Outcome) -> Outcome {
+    static SEEN: std::sync::Mutex<BTreeMap<String, (u32, usize)>> = std::sync::Mutex::new(BTreeMap::new());
+    if std::env::var(format!("{id}_DISCOVER")).is_err() {
+        return o;
+    }
+    match o {
+        Outcome::Fail(f) => {
+            let mut g = SEEN.lock().unwrap();
+            let size = f.input["veryl"].as_str().map(|s| s.len()).unwrap_or(usize::MAX);
+            let e = g.entry(f.signature.clone()).or_insert((0, usize::MAX));
+            e.0 += 1;
+            if e.0 <= 2 {
+                println!("=== DISCOVERED {}\n{}", f.signature, f.message);
+            }
+            if let Ok(dir) = std::env::var(format!("{id}_RECORD")) {
+                if size < e.1 {
+                    e.1 = size;
+                    let _ = std::fs::create_dir_all(&dir);
+                    let name: String = f.signature.chars().map(|c| if c.is_ascii_alphanumeric() || c == '-' || c == '+' { c } else { '_' }).take(120).collect();
+                    let mut payload = f.input.clone();
+                    payload["root"] = json!(f.signature);
+                    let body = json!({"property": id, "sub": "recorded", "signature": f.signature, "message": f.message, "payload": payload});
+                    let _ = std::fs::write(format!("{dir}/{name}.json"), serde_json::to_string_pretty(&body).unwrap());
+                }
+            }
+            Outcome::pass(hash_str(&f.message), false, vec![format!("FAIL:{}", f.signature)], String::new())
+        }
+        o => o,
+    }
+}
+
+pub fn recorded_on_own_thread(p: &Value, f: fn(&Value) -> Outcome) -> Outcome {
+    std::thread::scope(|s| {
+        std::thread::Builder::new()
+            .stack_size(16 << 20)
+            .spawn_scoped(s, || f(p))
+            .expect("spawn")
+            .join()
+            .unwrap_or_else(|_| Outcome::fail("panic:recorded", "the replay panicked", p.clone()))
+    })
+}
+
+pub fn one_case(d: &mut Draw) -> Outcome {
+    let case = gen_case(d);
+    if std::env::var("C19_DUMP").is_ok() {
+        println!("{}// options: {}\n// stimulus: {}", case.text, case.options_json(), stim_json(&case.stim));
+    }
+    evaluate(&case)
+}
+
+#[allow(dead_code)]
+pub fn run(ctx: &Ctx) {
+    if let Err(e) = crate::gate_eval::self_test() {
+        println!("INCONCLUSIVE property=C19: gate evaluator self-test failed: {e}");
+        std::process::exit(2);
+    }
+    if let Err(e) = crate::selftest::ram_self_test() {
+        println!("INCONCLUSIVE property=C19: gate evaluator RAM self-test failed: {e}");
+        std::process::exit(2);
+    }
+    ctx.run_payloads("recorded", |p| recorded_on_own_thread(p, replay_recorded));
+    let n = std::env::var("C19_CASES").ok().and_then(|s| s.parse::<usize>().ok()).unwrap_or(ctx.scale(400, 30_000));
+    ctx.run("cases", CaseCfg::cases(n).choices(12_000).timeout_s(600), |d| discover("C19", one_case(d)));
+    ctx.assume("the gate evaluator implements the doc comments of crates/synthesizer/src/ir.rs; what they leave open (RAM words never written, state before the first reset, out-of-range RAM addresses, read/write collision on a registered read) is X and not compared");
+    ctx.assume("the RTL side is veryl's simulator with the default Config, driven as vdesign's driver does (inputs, one clock edge with the reset asserted around it on reset steps, sample); where vdesign's IEEE 1800 reference says the RTL simulator is wrong and the netlist right, the case is counted as skipped (simulator matter)");
+    ctx.assume("the plain `reset` / `clock` types mean async-low / posedge (Metadata::create_default); a [build] reset_type other than the default is outside what this check drives");
+    ctx.finish(
+        "translation_validation",
+        "vdesign designs in the synthesizable dialect (no **, widths <= 64, mul/div at small widths, hierarchy, counters, case decoding, small arrays) and memory-shaped modules (1-3 write sites: plain / unconditional / masked RMW / sub-word lanes / if-else / case arm; 1-3 reads: assign / registered / re-assigned index / sub-word / computed address; flat or in 1-2 child instances) x stimulus x clock/reset type x 4 libraries x RamConfig drawn around the array size and port counts; non-trivial = netlist has FFs and > 20 cells, or a RAM block, and some known output bit was compared and some output changed; distinct by text + options + stimulus",
+    );
+}
+
+/// Development aid: print both traces of a recorded case side by side.
+#[allow(dead_code)]
+pub fn probe(p: &Value) {
+    let mut case = case_from_payload(p);
+    if std::env::var("PROBE_NO_RAM").is_ok() {
+        case.ram.min_bits = usize::MAX;
+        case.ram.max_ff_bits = usize::MAX;
+    }
+    println!("{}", case.text);
+    println!("options: {}", case.options_json());
+    let a = match Analyzed::new(&case.text) {
+        Ok(a) => a,
+        Err(r) => {
+            println!("analyzer rejects: {r}");
+            return;
+        }
+    };
+    for w in &a.warnings {
+        println!("warning: {w}");
+    }
+    let sr = match synthesize(&a, case.library, case.ram) {
+        Synth::Ok(r) => r,
+        Synth::Rejected(w) => {
+            println!("synthesizer rejects: {w}");
+            return;
+        }
+        Synth::Panic(m) => {
+            println!("synthesizer panics: {m}");
+            return;
+        }
+    };
+    let m = &sr.gate_ir.module;
+    println!("{} cells, {} ffs, {} ram blocks", m.cells.len(), m.ffs.len(), m.ram_blocks.len());
+    if m.cells.len() < 400 || std::env::var("PROBE_IR").is_ok() {
+        println!("{}", sr.gate_ir);
+        for (i, r) in m.ram_blocks.iter().enumerate() {
+            for (k, w) in r.write_ports.iter().enumerate() {
+                println!("ram{i} w{k}: addr {:?} data {:?} en n{} mask {:?}", w.addr, w.data, w.enable, w.mask);
+            }
+            for (k, rp) in r.read_ports.iter().enumerate() {
+                println!("ram{i} r{k}: addr {:?} data {:?} sync {}", rp.addr, rp.data, rp.sync);
+            }
+        }
+    }
+    println!("{}{}", sr.area, sr.timing);
+    let rtl = match run_rtl(&a, &case.stim) {
+        Ok(t) => t,
+        Err(e) => {
+            println!("RTL simulator: {e}");
+            return;
+        }
+    };
+    let cs = ClockSpec {
+        clock: case.stim.clock.clone(),
+        reset: case.stim.reset.clone(),
+        reset_active_high: case.reset.active_high(),
+    };
+    let mut sim = match GateSim::new(m, &cs) {
+        Ok(s) => s,
+        Err(e) => {
+            println!("gate netlist not evaluable: {e}");
+            return;
+        }
+    };
+    println!("clocking errors: {:?}", sim.clocking_errors(case.clock == ClockKind::Negedge, Some(case.reset.sync())));
+    for (si, step) in case.stim.steps.iter().enumerate() {
+        let mut line = format!("step {si}{}:", if step.reset { " RESET" } else { "" });
+        for (p, v) in case.stim.inputs.iter().zip(&step.values) {
+            sim.set_input(&p.name, v).unwrap();
+            line.push_str(&format!(" {}={v:x}", p.name));
+        }
+        if case.stim.clock.is_some() {
+            sim.step(step.reset && case.stim.reset.is_some());
+        } else {
+            sim.settle();
+        }
+        line.push_str("  =>");
+        for (oi, p) in case.stim.outputs.iter().enumerate() {
+            let (v, x, _) = sim.get_output(&p.name).unwrap();
+            let r = &rtl.steps[si][oi].value;
+            let bad = ((&v ^ r) & (mask(p.width as u32) ^ &x)) != BigUint::default();
+            line.push_str(&format!(" {}: gate {v:x}/x{x:x} rtl {r:x}{}", p.name, if bad { " <<<<" } else { "" }));
+        }
+        println!("{line}");
+    }
 }
